@@ -11,7 +11,7 @@ PID = "C13"
 
 def run(chk):
     chk.recheck_proofs()
-    alias_common.apply(chk, 300 if chk.tier == "quick" else 5000)
+    alias_common.apply(chk, 300 if chk.tier == "quick" else 40000)
     gen_common.apply(chk, PID)
     gen_modes.apply(chk, PID)
     for name, title in (("F7", "ShadowTime (a local variable named time)"), ("F8", "Nested (a directive inside a task literal of another directive)")):
